@@ -21,7 +21,8 @@ META = {
              'with double edges). EXHAUSTIVE: all graphs with <= 2 nodes over 16 node kinds x all edge sets incl. self-loops, '
              'all 3-node loop-free graphs (thorough; sampled in quick); random graphs (<= 60 nodes) with runs of 2-10 '
              'prunable nodes adjacent in graph.nodes and linked to each other; non-trivial = >= 2 prunable nodes adjacent '
-             'in the node list or a prunable node referenced by an attacker; distinct = digest(case)'),
+             'in the node list or a prunable node referenced by an attacker; distinct = digest(case)'
+             '; added strata: labels changed after an earlier analysis of the same graph, generated graphs whose model served a newer graph, chains and prunes of > 128 steps, DEBUG log level'),
     'assumptions': ['structural consistency as defined by C09 (mtv/agraph.check_invariants)'],
     'shards': {'quick': 8, 'thorough': 16},
     'quotas': {
